@@ -96,61 +96,61 @@ def conc_oracle(h, i, line, impl, orc):
 
 
 PROPS = {
-    "C01": dict(kind="v1hist", quick_n=1500, thorough_n=4000,
+    "C01": dict(kind="v1hist", quick_n=1500, thorough_n=16000,
                 profile=Profile(p_hash_read=0.0, check_all_versions=0.5, iters=0.3, big=0.05),
                 title="versioned key-value semantics"),
-    "C02": dict(kind="v1hist", quick_n=1500, thorough_n=4000,
+    "C02": dict(kind="v1hist", quick_n=1500, thorough_n=16000,
                 profile=Profile(p_hash_read=0.9, proofs=0.3, iters=0.2, exports=0.0, check_all_versions=0.4, p_churn=0.15,
                                 big=0.05, imm_reads=["hash", "hash", "get", "iterate"]),
                 title="canonical root hash"),
-    "C03": dict(kind="v1hist", quick_n=800, thorough_n=2500, oracle=proof_oracle, icsverify=True,
+    "C03": dict(kind="v1hist", quick_n=800, thorough_n=10000, oracle=proof_oracle, icsverify=True,
                 profile=Profile(proofs=1.0, p_empty_value=0.04, check_all_versions=0.05, big=0.1,
                                 reads_per_version=(0, 1), imm_reads_per_version=(0, 1)),
                 title="ICS-23 proofs"),
-    "C07": dict(kind="v1hist", quick_n=1500, thorough_n=6000,
+    "C07": dict(kind="v1hist", quick_n=1500, thorough_n=24000,
                 profile=Profile(p_reopen=0.35, p_reopen_old=0.4, fasts=[True, True, False], check_all_versions=0.5,
                                 iters=0.6, meta_reads=["getv", "getv", "latest"], meta_per_version=(1, 3),
                                 p_loadow=0.12, p_delfrom=0.05, p_hash_read=0.0),
                 title="fast index coherence"),
-    "C09": dict(kind="v1hist", quick_n=1500, thorough_n=6000,
+    "C09": dict(kind="v1hist", quick_n=1500, thorough_n=24000,
                 profile=Profile(p_loadow=0.3, p_delfrom=0.1, p_rollback=0.3, p_reopen=0.2, check_all_versions=0.5,
                                 p_hash_read=0.5, iters=0.2),
                 title="rollback erases the future"),
-    "C04": dict(kind="v1hist", quick_n=1500, thorough_n=6000,
+    "C04": dict(kind="v1hist", quick_n=1500, thorough_n=24000,
                 profile=Profile(p_hold=0.3, p_prune=0.6, p_noop_version=0.4, check_all_versions=0.7, proofs=0.2, p_hash_read=0.3,
                                 thrs=[120, 150, 150, 200, 300, 400, 0], caches=[0, 0, 0, 1, 3, 100],
                                 p_loadow=0.1, p_reopen=0.2, nkeys=5),
                 title="pruning safety"),
-    "C08": dict(kind="v1hist", quick_n=1200, thorough_n=3000,
+    "C08": dict(kind="v1hist", quick_n=1200, thorough_n=12000,
                 profile=Profile(iters=1.0, imm_reads=["iter", "iterate", "irange", "irangeinc"],
                                 imm_reads_per_version=(1, 5), check_all_versions=0.1, big=0.1),
                 title="iterator contract"),
-    "C10": dict(kind="v1hist", quick_n=1200, thorough_n=6000, gen="c10", oracle=proof_oracle, bigimport=True,
+    "C10": dict(kind="v1hist", quick_n=1200, thorough_n=24000, gen="c10", oracle=proof_oracle, bigimport=True,
                 profile=None, title="export/import fidelity, total importer"),
-    "C15": dict(kind="v1hist", quick_n=1200, thorough_n=6000, oracle=lambda h, i, line, impl, orc: (
+    "C15": dict(kind="v1hist", quick_n=1200, thorough_n=24000, oracle=lambda h, i, line, impl, orc: (
                     "replaying the extracted change sets does not reproduce the versions: " + impl
                     if line == "replaycs" and not impl.startswith("ok") else None),
                 profile=Profile(changes=0.8, p_savecs=0.3, p_noop_version=0.3, check_all_versions=0.1, p_prune=0.15,
                                 p_loadow=0.05, p_hash_read=0.1, reads_per_version=(0, 2), imm_reads_per_version=(0, 1)),
                 title="change sets"),
-    "C11": dict(kind="v1hist", quick_n=600, thorough_n=3000, gen="c11", oracle=c11_oracle, profile=None,
+    "C11": dict(kind="v1hist", quick_n=600, thorough_n=12000, gen="c11", oracle=c11_oracle, profile=None,
                 title="balance, rank, read cost"),
-    "C12": dict(kind="v1hist", quick_n=1200, thorough_n=6000,
+    "C12": dict(kind="v1hist", quick_n=1200, thorough_n=24000,
                 profile=Profile(p_hold=0.3, dump=0.7, p_prune=0.5, p_noop_version=0.35, p_loadow=0.12, p_delfrom=0.05, p_reopen=0.2,
                                 check_all_versions=0.1, p_hash_read=0.0, reads_per_version=(0, 1),
                                 imm_reads_per_version=(0, 1), meta_per_version=(0, 1), nkeys=5,
                                 thrs=[120, 150, 200, 300, 400, 0], caches=[0, 0, 1, 3, 100], empty_out=0.3),
                 title="storage = reachable set"),
-    "C18": dict(kind="v1hist", quick_n=1500, thorough_n=10000, gen="kv", mode="kv", profile=None,
+    "C18": dict(kind="v1hist", quick_n=1500, thorough_n=40000, gen="kv", mode="kv", profile=None,
                 title="ordered-KV contract of the bundled backends"),
-    "C05": dict(kind="v1hist", quick_n=1200, thorough_n=8000, mode="crash", oracle=crash_oracle,
+    "C05": dict(kind="v1hist", quick_n=1200, thorough_n=32000, mode="crash", oracle=crash_oracle,
                 profile=Profile(versions=(2, 6), ops_per_version=(0, 5), p_prune=0.4, p_loadow=0.2, p_reopen=0.25,
                                 p_delfrom=0.05, check_all_versions=0.0, reads_per_version=(0, 1),
                                 imm_reads_per_version=(0, 0), meta_per_version=(0, 0), p_hash_read=0.0,
                                 thrs=[150, 200, 250, 300, 400, 600, 0], caches=[0, 0, 2, 100], dbs=["mem"],
                                 nkeys=6, p_load_old=0.0, ivs=[None, None, 1, 4]),
                 title="crash atomicity"),
-    "C17": dict(kind="v1hist", quick_n=600, thorough_n=4000, mode="fault", oracle=fault_oracle, bigimport=True,
+    "C17": dict(kind="v1hist", quick_n=600, thorough_n=16000, mode="fault", oracle=fault_oracle, bigimport=True,
                 profile=Profile(versions=(2, 5), ops_per_version=(0, 4), p_prune=0.3, p_loadow=0.15, p_reopen=0.15,
                                 p_delfrom=0.0, check_all_versions=0.0, reads_per_version=(1, 3),
                                 imm_reads_per_version=(1, 3), meta_per_version=(0, 2), p_hash_read=0.1, iters=0.5,
@@ -158,22 +158,22 @@ PROPS = {
                                 thrs=[200, 400, 0, 0], caches=[0, 0, 2, 100], dbs=["mem"], nkeys=5, p_load_old=0.0,
                                 ivs=[None]),
                 title="storage failures surface as errors"),
-    "C13": dict(kind="multi", quick_n=400, thorough_n=4000, title="on-disk format, total decoders",
+    "C13": dict(kind="multi", quick_n=400, thorough_n=16000, title="on-disk format, total decoders",
                 parts=[dict(gen="codec", mode="codec", frac=1.0),
                        dict(gen="encodedb", mode="exec", frac=0.5),
                        dict(gen="profile", mode="exec", frac=0.6,
                             profile=Profile(dump=1.0, p_prune=0.3, p_noop_version=0.3, p_loadow=0.1, p_reopen=0.2,
                                             check_all_versions=0.05, p_hash_read=0.2, reads_per_version=(0, 1),
                                             imm_reads_per_version=(0, 1), meta_per_version=(0, 1)))]),
-    "C19": dict(kind="v1hist", quick_n=300, thorough_n=3000, gen="v2", mode="v2", profile=None,
+    "C19": dict(kind="v1hist", quick_n=300, thorough_n=12000, gen="v2", mode="v2", profile=None,
                 title="v2 computes the same tree as v1"),
-    "C20": dict(kind="v1hist", quick_n=200, thorough_n=2000, gen="v2p", mode="v2", profile=None,
+    "C20": dict(kind="v1hist", quick_n=200, thorough_n=8000, gen="v2p", mode="v2", profile=None,
                 title="v2 persistence"),
-    "C16": dict(kind="v1hist", quick_n=150, thorough_n=1500, gen="legacy", mode="legacy", profile=None,
+    "C16": dict(kind="v1hist", quick_n=150, thorough_n=6000, gen="legacy", mode="legacy", profile=None,
                 title="legacy-format databases stay usable"),
-    "C06": dict(kind="v1hist", quick_n=1000, thorough_n=6000, mode="conc", gen="conc", oracle=conc_oracle, profile=None, stress=True,
+    "C06": dict(kind="v1hist", quick_n=1000, thorough_n=24000, mode="conc", gen="conc", oracle=conc_oracle, profile=None, stress=True,
                 title="concurrent readers"),
-    "C14": dict(kind="v1hist", quick_n=1500, thorough_n=4000,
+    "C14": dict(kind="v1hist", quick_n=1500, thorough_n=16000,
                 profile=Profile(p_hold=0.3, meta_per_version=(2, 5), p_load_old=0.25, p_prune=0.3, p_reopen=0.25,
                                 check_all_versions=0.2, p_noop_version=0.35),
                 title="version bookkeeping"),
